@@ -12,14 +12,49 @@ RULE = ('cases are pairs/triples of category values: every value with <= 3 atoms
 ASSUMPTIONS = ['reference structure/erasure in vlib/refcat.py', 'feature names to erase are unary feature values',
                'values are read through the public attributes base/feature/left/slash/right']
 REQUIRED_MONITORS = {'contract:__eq__': 1000, 'contract:__xor__': 1000, 'contract:clear_features': 1000,
-                     'law:hash': 500, 'law:dict-lookup': 500, 'law:xor-transitive': 100}
+                     'law:hash': 500, 'law:dict-lookup': 500, 'law:xor-transitive': 100,
+                     'law:hash-after-pickle': 100}
 NSHARDS = 14
 FEATS = (None, 'X', 'nb', 'dcl')
 
 
 def shards(tier, seed):
     return [{'name': f's{k}', 'k': k, 'n': NSHARDS, 'budget_s': 40 if tier == 'quick' else 420,
-             'stride': 7 if tier == 'quick' else 1} for k in range(NSHARDS)]
+             'stride': 7 if tier == 'quick' else 1} for k in range(NSHARDS)] + [{'name': 'pickle', 'kind': 'pickle', 'budget_s': 60}]
+
+
+def run_pickle(spec, R):
+    """categories that were hashed and pickled in an interpreter with another string-hash seed (a worker process started
+    afresh, a cache on disk) must still be found by equal categories built here"""
+    import os
+    import pickle
+    import subprocess
+    import sys
+    atoms = _atoms()
+    by_n = gens.enumerate_values(atoms, 2)
+    vals = (by_n[1] + by_n[2])[::5][:400]
+    code = ('import sys, pickle; sys.path.insert(0, %r); sys.path.insert(1, %r)\n'
+            'from vlib import env, refcat; env.install()\n'
+            'vals = pickle.loads(sys.stdin.buffer.read())\n'
+            'objs = [refcat.from_ref(v) for v in vals]\n'
+            'd = {o: i for i, o in enumerate(objs)}          # hashed there\n'
+            'sys.stdout.buffer.write(pickle.dumps(objs))\n' % (env.VERIF, os.path.join(env.VERIF, '.deps')))
+    for hs in (1, 4242):
+        p = subprocess.run([sys.executable, '-c', code], input=pickle.dumps(vals), capture_output=True,
+                           env=dict(os.environ, PYTHONHASHSEED=str(hs), VERIF_REPO=env.REPO))
+        if p.returncode != 0:
+            R.inconclusive_because('pickle helper failed: ' + p.stderr.decode()[-300:])
+            return
+        objs = pickle.loads(p.stdout)
+        table = {o: i for i, o in enumerate(objs)}
+        for i, v in enumerate(vals):
+            fresh = refcat.from_ref(v)
+            R.case(('pickle', hs, v), True)
+            R.count('law:hash-after-pickle')
+            if not (objs[i] == fresh) or hash(objs[i]) != hash(fresh) or table.get(fresh) != i:
+                R.violation('cat:eq-hash', f'a category hashed and pickled under PYTHONHASHSEED={hs} is not found by an equal category built '
+                            f'in this process: {refcat.ref_print(v)}', {'a': refcat.ref_print(v), 'hashseed': hs})
+                return
 
 
 def _atoms():
@@ -118,6 +153,8 @@ def check_pair(a, b, R, rng):
 def run(spec, R):
     env.install()
     contracts.bind(R)
+    if spec.get('kind') == 'pickle':
+        return run_pickle(spec, R)
     contracts.install_value_contracts()
     rng = shard_rng(ID, spec['seed'], spec['name'])
     atoms = _atoms()
